@@ -265,7 +265,7 @@ pub async fn handshake_handler(w: Rc<World>, plan: Rc<Plan>, h: v5::Handshake) -
                     p.topic_alias_max = v;
                 }
                 if let Some(v) = cfg2.hs_max_packet_size {
-                    p.max_packet_size = Some(v);
+                    p.max_packet_size = if v == 0 { None } else { Some(v) };
                 }
                 if let Some(v) = cfg2.hs_retain_available {
                     p.retain_available = v;
@@ -492,6 +492,19 @@ async fn sender_task(w: Rc<World>, sidx: usize, sink: v5::MqttSink, ops: Vec<App
             w.ev(Ev::OpDone { sender: sidx, op: opj, res });
             continue;
         }
+        if let AppOp::Unpolled { what } = &op {
+            let payload = Bytes::from(make_payload(op_tag(sidx, opi), 3));
+            match what {
+                0 => drop(sink.ready()),
+                1 => drop(sink.publish(op_topic(sidx, opi)).send_at_least_once(payload)),
+                _ => drop(sink.publish(op_topic(sidx, opi)).send_exactly_once(payload)),
+            }
+            w.fault(0, "cancel_unpolled", u64::from(*what));
+            w.ev(Ev::OpCancel { sender: sidx, op: opi });
+            w.sender_op_done(sidx);
+            w.ev(Ev::OpDone { sender: sidx, op: opi, res: OpResult::Cancelled });
+            continue;
+        }
         let fut = exec_op(&w, sidx, opi, &op, &sink);
         let res = match select(fut, w.sender_cancelled(sidx)).await {
             Either::Left(r) => r,
@@ -542,7 +555,7 @@ async fn exec_op(
                 Err(e) => OpResult::Err(err_str(&e)),
             }
         }
-        AppOp::PubQ2 { .. } | AppOp::Release | AppOp::DropReceipt => OpResult::Err("no-receipt".into()),
+        AppOp::PubQ2 { .. } | AppOp::Release | AppOp::DropReceipt | AppOp::Unpolled { .. } => OpResult::Err("no-receipt".into()),
         AppOp::Subscribe { n, pid } => {
             let mut b = sink.subscribe(None);
             if let Some(p) = pid {
